@@ -203,8 +203,22 @@ theorem faultfree_delivery (s : ServerLink.State) (e : Ev) (rest : List Ev) (c s
     s'.outbox = rest ∧ s'.pend = none ∧ s'.lost = s.lost ∧
     ∃ l', s'.links[c]? = some l' ∧ l'.cmds = [] ∧ l'.h = { pending := none, sink := .ready sid } ∧
       l'.delivered = l.delivered ++ [e] ∧
-      writtenOf l'.outs = writtenOf l.outs ++ e.blocks.map encB ∧ droppedOf l'.outs = droppedOf l.outs :=
+      writtenOf l'.outs = writtenOf l.outs ++ e.blocks.map encB ∧ droppedOf l'.outs = droppedOf l.outs ∧
+      l'.peer = l.peer ∧ l'.closing = false ∧ l'.gone = false :=
   Proofs.ServerLink.faultfree_delivery s e rest c sid l n hob hpd hl hp hcl hg hcm hh hn
+
+/-- … and of a whole queue: everything the behaviour has queued for the peer of a healthy connection
+is written on its stream in the order of dispatch; nothing is dropped, nothing stays behind. -/
+theorem faultfree_delivers_all (es : List Ev) (s : ServerLink.State) (c sid : Nat) (l : Link) (n : Nat)
+    (hob : s.outbox = es) (hpd : s.pend = none) (hl : s.links[c]? = some l) (hp : ∀ e ∈ es, e.peer = l.peer)
+    (hcl : l.closing = false) (hg : l.gone = false) (hcm : l.cmds = [])
+    (hh : l.h = { pending := none, sink := .ready sid }) (hn : ∀ e ∈ es, e.blocks.length + 1 ≤ n) :
+    let s' := ServerLink.run s (Proofs.ServerLink.deliverAllVia c n es.length)
+    s'.outbox = [] ∧ s'.pend = none ∧ s'.lost = s.lost ∧
+    ∃ l', s'.links[c]? = some l' ∧ l'.cmds = [] ∧ l'.h = { pending := none, sink := .ready sid } ∧
+      l'.delivered = l.delivered ++ es ∧
+      writtenOf l'.outs = writtenOf l.outs ++ blocksOf es ∧ droppedOf l'.outs = droppedOf l.outs :=
+  Proofs.ServerLink.faultfree_delivers_all es s c sid l n hob hpd hl hp hcl hg hcm hh hn
 
 /-- Non-vacuity: a peer with two connections wants CID 5, the blockstore has it, one connection
 begins to close after the swarm took the event, the other carries the block to the wire. -/
